@@ -27,7 +27,7 @@ func init() {
 			return 2100
 		},
 		Batch: func(t string) int { return 30 },
-		Floors: []string{"projections_checked", "via_reader_with_schema", "via_convert_rowgroup_rows", "via_convert_row_reader", "via_copy_rows", "via_merge_with_schema", "via_convert_rowgroup_chunks", "via_sorted_merge_with_schema", "edit_delete", "edit_permute", "edit_add_optional",
+		Floors: []string{"via_typed_read", "via_typed_generic_reader", "projections_checked", "via_reader_with_schema", "via_convert_rowgroup_rows", "via_convert_row_reader", "via_copy_rows", "via_merge_with_schema", "via_convert_rowgroup_chunks", "via_sorted_merge_with_schema", "edit_delete", "edit_permute", "edit_add_optional",
 			"edit_add_required", "edit_inside_list", "edit_inside_group", "edit_inside_map_value", "incompatible_probed"},
 		Rule: "case = (source catalogue type with nested groups, lists of groups and maps; target struct type derived at run time (reflect.StructOf) by <= 4 edits at any depth: delete a field, permute fields, add an optional (pointer) field, add a required field, incl. inside list elements, nested groups and map values; " +
 			"rows with null patterns at every ancestor). The rows are read through NewReader(file, targetSchema), ConvertRowGroup (rows and column chunks), ConvertRowReader, CopyRows and MergeRowGroups(schema). Oracle: a reflection-based projection of the source value - common fields identical, added fields nil/zero, " +
@@ -249,6 +249,10 @@ func project(src reflect.Value, dst reflect.Type) reflect.Value {
 }
 
 func runC12(c *Ctx) {
+	if c.Case%8 == 7 && (c.Case/8)%3 == 2 {
+		c12Typed(c)
+		return
+	}
 	r := c.R
 	te := typeByName(gen.Pick(r, []string{"nested", "deep", "maps", "optgroups", "strings", "lists", "embedded2", "c10row", "flat", "ptr", "repdict", "mapofmaps"}))
 	n := gen.Pick(r, []int{1, 20, 120})
